@@ -5,6 +5,7 @@ CONSTANTS
   Dense = TRUE
   KeepStatus = FALSE
   RecheckAtApply = TRUE
+  RecheckElect = TRUE
   RecheckISR = TRUE
   KeepOnFail = FALSE
   CountAll = FALSE
